@@ -58,6 +58,47 @@ static void one_state(const struct hist *h, const struct opscope *sc, int with_o
     if (MC_TRY(30000)) { t = hist_build(h); mc_try_end(); }
     if (mc_report_faults("replay") || !t) return;
     size_t len = 0; int rc = -9;
+    /* cold pass (first offset only): get_length, write and adopt come right after the last modifying call of the history,
+     * with no consulting call in between - whatever the history left to be refreshed lazily is still pending when the
+     * topology is written (seeded change C19-write-refresh-after-dup: the writer refreshed the source after copying it; the
+     * pass below always computes a dump of the source first, which performs every pending refresh) */
+    if (oi == 0) {
+      size_t clen = 0; int crc = -9; hwloc_topology_t ca = NULL;
+      if (MC_TRY(30000)) { crc = hwloc_shmem_topology_get_length(t, &clen, 0); mc_try_end(); }
+      if (mc_report_faults("cold-get_length")) { hwloc_topology_destroy(t); return; }
+      void *cguard; void *caddr = crc == 0 && clen ? reserve(clen, &cguard) : NULL;
+      char cpath[256]; snprintf(cpath, sizeof(cpath), "%s/c19.%d.%d.cold.shm", getenv("TMPDIR") ? getenv("TMPDIR") : "/tmp", (int)getpid(), MC.part);
+      int cfd = caddr ? open(cpath, O_RDWR | O_CREAT | O_TRUNC, 0600) : -1; if (cfd >= 0) unlink(cpath);
+      if (caddr && cfd >= 0) {
+        crc = -9;
+        if (MC_TRY(30000)) { crc = hwloc_shmem_topology_write(t, cfd, 0, caddr, clen, 0); mc_try_end(); }
+        MC.transitions++;
+        if (mc_report_faults("cold-write")) { munmap(caddr, clen); unreserve(caddr, clen); close(cfd); hwloc_topology_destroy(t); return; }
+        if (crc != 0) mc_violation("c19.write.fails", "%s :: write right after the history returned %d (errno %d)", mc_case_text(), crc, errno);
+        else {
+          crc = -9;
+          if (MC_TRY(30000)) { crc = hwloc_shmem_topology_adopt(&ca, cfd, 0, caddr, clen, 0); mc_try_end(); }
+          if (!mc_report_faults("cold-adopt")) {
+            if (crc != 0 || !ca) mc_violation("c19.adopt.fails", "%s :: adoption after a write right after the history returns %d (errno %d)", mc_case_text(), crc, errno);
+            else {
+              if (MC_TRY(60000)) {
+                char *got = canon_str(ca, CANON_ALL & ~CANON_SUPPORT), *want = canon_str(t, CANON_ALL & ~CANON_SUPPORT);
+                if (strcmp(got, want)) mc_violation("c19.adopt.canon", "%s :: (written right after the history) %s", mc_case_text(), canon_diff(want, got));
+                free(got); free(want);
+                struct sb b; sb_init(&b); battery_all(ca, &b); sb_free(&b);
+                mc_try_end();
+              }
+              mc_report_faults("cold-adopted-read");
+              if (MC_TRY(30000)) { hwloc_topology_destroy(ca); mc_try_end(); }
+              mc_report_faults("cold-destroy");
+              mc_count("cold_passes", 1);
+            }
+          }
+        }
+      }
+      if (cfd >= 0) close(cfd);
+      if (caddr) unreserve(caddr, clen);
+    }
     if (MC_TRY(30000)) { rc = hwloc_shmem_topology_get_length(t, &len, 0); mc_try_end(); }
     MC.transitions++;
     if (mc_report_faults("get_length")) { hwloc_topology_destroy(t); return; }
@@ -146,7 +187,7 @@ static void one_state(const struct hist *h, const struct opscope *sc, int with_o
         struct op *ops; int nops = ops_enumerate(t, sc, &ops);
         hwloc_topology_t mirror = NULL;
         for (int k = 0; k < nops; k++) {
-          if (ops[k].kind == OP_INFO || ops[k].kind == OP_SUBTYPE || ops[k].kind == OP_REFRESH) continue;   /* object-level edits have no topology to refuse them: documented as forbidden */
+          if (ops[k].kind == OP_INFO || ops[k].kind == OP_SUBTYPE) continue;   /* object-level edits have no topology to refuse them: documented as forbidden */
           static struct sb ob; if (!ob.s) sb_init(&ob); sb_reset(&ob); op_print(&ob, &ops[k]);
           if (!mc_case("%s ; shmem(offset=%d pages) ; on-adopted %s", hist_text(h), OFFS[oi], ob.s)) continue;
           struct opres r; memset(&r, 0, sizeof(r));
@@ -163,7 +204,7 @@ static void one_state(const struct hist *h, const struct opscope *sc, int with_o
             if (r0.rc != r.rc) mc_violation("c19.adopted.allow", "%s :: allow returns %d on the adopted topology, %d on the original", mc_case_text(), r.rc, r0.rc);
             else { char *c1 = canon_str(mirror, CANON_ALLOWED), *c2 = canon_str(a, CANON_ALLOWED); if (strcmp(c1, c2)) mc_violation("c19.adopted.allow.result", "%s :: %s", mc_case_text(), canon_diff(c1, c2)); free(c1); free(c2); }
           } else {
-            if (r.rc == 0 && ops[k].kind != OP_GROUP_FREE) { char key[96]; snprintf(key, sizeof(key), "c19.adopted.accepted@%s", where); mc_violation(key, "%s :: the call succeeds on an adopted topology", mc_case_text()); }
+            if (r.rc == 0 && ops[k].kind != OP_GROUP_FREE && ops[k].kind != OP_REFRESH /* nothing to refuse: it must only leave the mapping alone */) { char key[96]; snprintf(key, sizeof(key), "c19.adopted.accepted@%s", where); mc_violation(key, "%s :: the call succeeds on an adopted topology", mc_case_text()); }
             if (r.rc != 0 && r.err != EPERM && r.err != EINVAL && r.err != EBUSY) { char key[96]; snprintf(key, sizeof(key), "c19.adopted.errno@%s", where); mc_violation(key, "%s :: refused with errno %d", mc_case_text(), r.err); }
           }
         }
